@@ -125,6 +125,8 @@ def run(tier):
     pathctx_phase(out, tier)
     out.assumptions = ['stderr is never swapped by the library; it is compared all the same',
                        'the doctest replaces sys.stdout by assignment inside a part; closing the capture stream is outside the property']
+    # random longer programs (5..8 parts) from TLC's simulation mode over the same specification
+    runlib.simulate_replay(out, 'C12_Parts' + ' 5..8 parts', 'C12_Parts', 5, 8, 800 if tier == 'quick' else 15000, onerrors=('return', 'raise'), modes=('native', 'pytest'))
     from . import tracelib
     tracelib.traced_replay(out, 'C12_Parts<=2', 'C12_Parts', 2, onerrors=('return', 'raise'), modes=('native', 'pytest'))
     return out.finish()
